@@ -116,6 +116,7 @@ func main() {
 	out := flag.String("out", "", "output directory")
 	virt := flag.String("virt", "", "directory holding the virtual runtime packages (_virt)")
 	tagsF := flag.String("tags", "", "comma separated build tags")
+	plain := flag.Bool("plain", false, "sched mode: leave the sources alone (no scheduler control), only generate snapshot/restore")
 	flag.Parse()
 	if *out == "" || *virt == "" {
 		die("need -out and -virt")
@@ -139,9 +140,16 @@ func main() {
 			scanAssembly(p, tags)
 			classifySched(p)
 		}
+		plainMode = *plain
+		uses := []string{}
+		for _, p := range []*pkgInfo{field, root} {
+			uses = append(uses, channelUses(p)...)
+		}
+		report["channel_operations"] = uses
 		for _, p := range []*pkgInfo{field, root} {
 			instrumentSched(p, *out, overlay, report)
 		}
+		report["plain"] = plainMode
 		report["functions"] = funcTable
 		addVirtual(*repo, *virt, "vsched", overlay)
 		addVirtual(*repo, *virt, "vsync", overlay)
@@ -843,6 +851,101 @@ func (p *pkgInfo) mentionsIn(n ast.Node, skipBodies bool, aliases map[types.Obje
 	return out
 }
 
+// rewriteGoStmts turns every go statement below body into a call of
+// vsched.Go, so that goroutines the library starts itself run under the
+// controlled scheduler too. Arguments are evaluated at the statement, as the
+// language requires; the call itself runs in the new thread.
+func rewriteGoStmts(body *ast.BlockStmt) bool {
+	changed := false
+	conv := func(g *ast.GoStmt) ast.Stmt {
+		changed = true
+		schedGo := func(fn ast.Expr) ast.Stmt {
+			return &ast.ExprStmt{X: &ast.CallExpr{
+				Fun:  &ast.SelectorExpr{X: ast.NewIdent("vsched"), Sel: ast.NewIdent("Go")},
+				Args: []ast.Expr{fn}}}
+		}
+		call := g.Call
+		if fl, ok := call.Fun.(*ast.FuncLit); ok && len(call.Args) == 0 {
+			return schedGo(fl)
+		}
+		var lhs, rhs []ast.Expr
+		var args []ast.Expr
+		for i, a := range call.Args {
+			id := ast.NewIdent(fmt.Sprintf("verifGoArg%d", i))
+			lhs = append(lhs, id)
+			rhs = append(rhs, a)
+			args = append(args, ast.NewIdent(id.Name))
+		}
+		inner := &ast.CallExpr{Fun: call.Fun, Args: args, Ellipsis: call.Ellipsis}
+		if call.Ellipsis == token.NoPos {
+			inner.Ellipsis = token.NoPos
+		} else {
+			inner.Ellipsis = 1
+		}
+		lit := &ast.FuncLit{Type: &ast.FuncType{Params: &ast.FieldList{}}, Body: &ast.BlockStmt{List: []ast.Stmt{&ast.ExprStmt{X: inner}}}}
+		var list []ast.Stmt
+		if len(lhs) > 0 {
+			list = append(list, &ast.AssignStmt{Lhs: lhs, Tok: token.DEFINE, Rhs: rhs})
+		}
+		list = append(list, schedGo(lit))
+		return &ast.BlockStmt{List: list}
+	}
+	fix := func(list []ast.Stmt) {
+		for i, st := range list {
+			if g, ok := st.(*ast.GoStmt); ok {
+				list[i] = conv(g)
+			} else if l, ok := st.(*ast.LabeledStmt); ok {
+				if g, ok := l.Stmt.(*ast.GoStmt); ok {
+					l.Stmt = conv(g)
+				}
+			}
+		}
+	}
+	ast.Inspect(body, func(x ast.Node) bool {
+		switch v := x.(type) {
+		case *ast.BlockStmt:
+			fix(v.List)
+		case *ast.CaseClause:
+			fix(v.Body)
+		case *ast.CommClause:
+			fix(v.Body)
+		}
+		return true
+	})
+	return changed
+}
+
+var plainMode bool
+
+// channelUses lists the channel operations of the package's non-test sources:
+// the controlled scheduler models the sync and sync/atomic packages and go
+// statements, not channels (a thread blocked on a channel would stall it).
+func channelUses(p *pkgInfo) []string {
+	var out []string
+	add := func(n ast.Node, what string) {
+		pos := fset.Position(n.Pos())
+		out = append(out, fmt.Sprintf("%s:%d %s", filepath.Base(pos.Filename), pos.Line, what))
+	}
+	for _, f := range p.files {
+		ast.Inspect(f, func(x ast.Node) bool {
+			switch v := x.(type) {
+			case *ast.ChanType:
+				add(v, "chan type")
+			case *ast.SendStmt:
+				add(v, "send")
+			case *ast.SelectStmt:
+				add(v, "select")
+			case *ast.UnaryExpr:
+				if v.Op == token.ARROW {
+					add(v, "receive")
+				}
+			}
+			return true
+		})
+	}
+	return out
+}
+
 var mutableAll = map[*types.Var]bool{}
 
 // funcTable: function id -> name, for the execution-count profile.
@@ -959,9 +1062,12 @@ func instrumentSched(p *pkgInfo, out string, overlay map[string]string, report m
 	sort.Strings(mutNames)
 	report[p.path] = map[string]any{"mutable_globals": mutNames, "read_only_globals": roNames}
 
-	// 2. rewrite files
+	// 2. rewrite files (not in plain mode: the library then runs uncontrolled)
 	nAccess := 0
 	for i, f := range p.files {
+		if plainMode {
+			break
+		}
 		usedSched := false
 		// imports
 		for _, im := range f.Imports {
@@ -1063,6 +1169,9 @@ func instrumentSched(p *pkgInfo, out string, overlay map[string]string, report m
 		}
 		for _, d := range f.Decls {
 			if fd, ok := d.(*ast.FuncDecl); ok && fd.Body != nil {
+				if rewriteGoStmts(fd.Body) {
+					usedSched = true
+				}
 				curAliases = p.aliasesIn(fd.Body)
 				fd.Body.List = rewriteBlock(fd.Body.List)
 				// execution counter (not a scheduling point): work duplicated or
@@ -1130,7 +1239,9 @@ func instrumentSched(p *pkgInfo, out string, overlay map[string]string, report m
 		sort.Strings(ips)
 		for _, ip := range ips {
 			ipr := ip
-			if ip == "sync" {
+			if plainMode {
+				// real sync packages
+			} else if ip == "sync" {
 				ipr = modPath + "/vsync"
 			} else if ip == "sync/atomic" {
 				ipr = modPath + "/vsync/atomic"
